@@ -218,8 +218,14 @@ def spec_of_ops(ops):
     """The build data of a canonical history of exact ops (as XQ values), else None."""
     kinds = [o[0] for o in ops]
     nn = sum(1 for k in kinds if k == "nodes")
-    if kinds != ["nodes"] * nn + ["travel", "exit", "entry"]:
+    tail = kinds[nn:]
+    # the three arc-building calls in ANY order (the specified arc set does not depend on it), the exit call possibly repeated
+    if kinds[:nn] != ["nodes"] * nn or sorted(set(tail)) != ["entry", "exit", "travel"] or tail.count("travel") != 1 \
+            or tail.count("entry") != 1 or len(tail) > 4:
         return None
+    if tail.count("exit") == 2 and ops[nn + tail.index("exit")] != ops[nn + len(tail) - 1 - tail[::-1].index("exit")]:
+        return None
+    ops = ops[:nn] + [ops[nn + tail.index("travel")], ops[nn + tail.index("exit")], ops[nn + tail.index("entry")]]
     tr = ops[nn]
     table = {k: mc.xq(v) for k, v in tr[1]}
     return {"ports": [{"name": o[1], "inventory_init": o[2], "inventory_rate": o[3], "inventory_cap": o[4]} for o in ops[:nn]],
@@ -495,6 +501,11 @@ def run(ctx):
     for k in range(n_canon + n_hist):
         canonical = k < n_canon
         size, H, ops = gen_canonical(rng) if canonical else gen_history(rng)
+        if canonical and k % 4 == 3:
+            # the same build with the three arc-building calls in another order / the exit call repeated: same specified arc set
+            nn_ = sum(1 for o in ops if o[0] == "nodes")
+            tr_, ex_, en_ = ops[nn_:nn_ + 3]
+            ops = ops[:nn_] + rng.choice([[tr_, en_, ex_], [en_, tr_, ex_], [tr_, ex_, en_, ex_], [en_, ex_, tr_], [ex_, en_, tr_]])
         m, rs, st = run_history(size, H, ops)
         dist["canonical" if canonical else "arbitrary"] += 1
         dist["ops"] += len(ops)
